@@ -234,8 +234,11 @@ func exec(b *Built) (string, string) {
 }
 
 // RunWith executes p with the given recorder.
-func RunWith(p *Program, rec *Recorder) Result {
-	obs, msg := exec(Build(p, rec))
+func RunWith(p *Program, rec *Recorder) Result { return RunBuilt(Build(p, rec), rec) }
+
+// RunBuilt executes already built options (the caller keeps b to inspect its buffers afterwards).
+func RunBuilt(b *Built, rec *Recorder) Result {
+	obs, msg := exec(b)
 	return Result{Obs: obs, Err: msg, Steps: len(rec.Snaps), Hash: TraceHash(rec.Snaps), Snaps: rec.Snaps, Trace: rec.Trace}
 }
 
